@@ -41,7 +41,10 @@ EmptyFn == [x \in {} |-> 0]
 
 \* run_tape -> set_tape_flags(tape, additional): defaults are (re)applied, then
 \* the str/int keys of `additional` (a snapshot taken before anything is written)
-SetTapeFlags(cur, defaults, add) == Overlay(Overlay(cur, StrIntKeys(defaults)), StrIntKeys(add))
+SetTapeFlags(cur, defaults, toset, add) ==
+    LET d == StrIntKeys(defaults)
+        eff == [k \in DOMAIN d |-> IF k \in toset THEN d[k] ELSE 0]
+    IN Overlay(Overlay(cur, eff), StrIntKeys(add))
 
 FlagOn(tbl, k) == k \in DOMAIN tbl /\ tbl[k] # 0
 
@@ -131,7 +134,7 @@ CacheIf(v, flagno, key, item) == IF Bad(v) \/ ~FlagOn(Flags(v), FInt(flagno)) TH
 
 \* an integer result: the minimal encoding, or - when the log shows another
 \* valid encoding of the same value in that position - that one
-IntOut(h, k, x) == IF k <= Len(h.pushed) /\ h.pushed[k] # <<>> /\ ValidEnc(h.pushed[k], x)
+IntOut(h, k, x) == IF k >= 1 /\ k <= Len(h.pushed) /\ h.pushed[k] # <<>> /\ ValidEnc(h.pushed[k], x)
                    THEN h.pushed[k] ELSE EncS(x)
 PutInt(v, h, x) == IF Bad(v) THEN v ELSE Put(v, IntOut(h, Len(h.pushed), x))
 
@@ -184,7 +187,7 @@ Frame(tid, kind, saved, xbody, iter) ==
 \* run_tape(tape, additional_flags = add): flags (re)initialised, frame pushed
 Enter(v, tid, kind, add, saved, xbody, iter) ==
     LET fid == v.tapes[tid].fid
-        w == [v EXCEPT !.fheap[fid] = SetTapeFlags(@, v.cfg.defaults, add)]
+        w == [v EXCEPT !.fheap[fid] = SetTapeFlags(@, v.cfg.defaults, v.cfg.toset, add)]
     IN [w EXCEPT !.frames = Append(@, Frame(tid, kind, saved, xbody, iter)),
                  !.r = <<>>, !.p = <<>>]
 
@@ -494,19 +497,20 @@ OpRandom(v, h) ==
 
 \* SET_FLAG / UNSET_FLAG: the operand names a flag: a byte-string key of the
 \* default table if there is one, else (one byte) the integer flag of that number
-FlagKey(v, b) == IF FByt(b) \in DOMAIN v.cfg.defaults THEN FByt(b)
-                 ELSE IF Len(b) = 1 THEN FInt(b[1]) ELSE FByt(b)
+NumKey(b) == FInt(UInt(Norm(b)))      \* the integer flag a non-empty operand < 256 names
+FlagKey(tbl, b) == IF FByt(b) \in DOMAIN tbl THEN FByt(b)
+                   ELSE IF b # <<>> /\ Len(Norm(b)) <= 1 /\ NumKey(b) \in DOMAIN tbl THEN NumKey(b)
+                   ELSE FByt(b)
 OpSetFlag(v) ==
     LET a == RdKey(v) IN
     IF Bad(a) THEN a
-    ELSE LET k == FlagKey(a, a.r[2]) IN
+    ELSE LET k == FlagKey(a.cfg.defaults, a.r[2]) IN
          IF k \notin DOMAIN a.cfg.defaults THEN Raise(a, SEE)
          ELSE [a EXCEPT !.fheap[TT(a).fid] = Overlay(@, [x \in {k} |-> a.cfg.defaults[k]])]
 OpUnsetFlag(v) ==
     LET a == RdKey(v) IN
     IF Bad(a) THEN a
-    ELSE LET k == FlagKey(a, a.r[2]) kb == FByt(a.r[2]) IN
-         [a EXCEPT !.fheap[TT(a).fid] = Without(Without(@, k), kb)]
+    ELSE [a EXCEPT !.fheap[TT(a).fid] = Without(@, FlagKey(@, a.r[2]))]
 
 OpSwap(v) == LET a == Rd(Rd(v, 1), 1) IN IF Bad(a) THEN a ELSE DoSwap(a, U8(a.r[1]), U8(a.r[2]))
 OpReverse(v) ==
@@ -611,12 +615,22 @@ OpClampScalar(v) == LET a == Pop(Rd(v, 1)) IN
 OpAddScalars(v, h) == LET a == Rd(v, 1) b == IF Bad(a) THEN a ELSE PopN(a, U8(a.r[1])) IN
     IF Bad(b) THEN b ELSE IF b.p = <<>> THEN Raise(b, "IndexError")
     ELSE WithPrim(b, h, "addsc", b.p, LAMBDA c, r : Put(c, r[1]))
-OpSubScalars(v, h) == LET a == Rd(v, 1) b == IF Bad(a) THEN a ELSE PopN(a, Max(U8(a.r[1]), 1)) IN
-    WithPrim(b, h, "subsc", b.p, LAMBDA c, r : Put(c, r[1]))
+\* SUBTRACT_SCALARS / SUBTRACT_POINTS: pop the first, then pop-and-subtract one at a time
+RECURSIVE SubFold(_, _, _, _, _)
+SubFold(v, h, name, acc, n) == \* result left in scratch register x
+    IF Bad(v) THEN v
+    ELSE IF n <= 0 THEN [v EXCEPT !.x = acc]
+    ELSE LET a == Pop(v)
+             b == WithPrim(a, h, name, <<acc, Last(a.p)>>, LAMBDA s, r : [s EXCEPT !.x = r[1]])
+         IN IF Bad(b) THEN b ELSE SubFold(b, h, name, b.x, n - 1)
+OpSubFold(v, h, name) ==
+    LET a == Pop(Rd(v, 1)) IN
+    IF Bad(a) THEN a
+    ELSE LET c == SubFold(a, h, name, a.p[1], U8(a.r[1]) - 1) IN IF Bad(c) THEN c ELSE Put(c, c.x)
+OpSubScalars(v, h) == OpSubFold(v, h, "subsc")
 OpDerivePoint(v, h) == LET a == Pop(v) IN
     WithPrim(a, h, "derive_point", <<a.p[1]>>, LAMBDA b, r : Put(CacheIf(b, 2, <<88>>, r[1]), r[1]))
-OpSubPoints(v, h) == LET a == Rd(v, 1) b == IF Bad(a) THEN a ELSE PopN(a, Max(U8(a.r[1]), 1)) IN
-    WithPrim(b, h, "subpts", b.p, LAMBDA c, r : Put(c, r[1]))
+OpSubPoints(v, h) == OpSubFold(v, h, "subpts")
 
 \* adapter signatures: r = <<r, R, sa>> / <<t, T, R, sa>> / <<bool>> / <<RT, s>>
 OpMasu(v, h) == LET a == PopN(v, 3) IN
@@ -881,10 +895,10 @@ StepKind(v) == IF v.status # "run" THEN "halt"
 
 ----------------------------------------------------------------------------
 \* Initial state for a configuration record cfg:
-\*  [scripts, auth, maxItems, maxItemSize, callLimit, sc, bc0, defaults, flags,
+\*  [scripts, auth, maxItems, maxItemSize, callLimit, sc, bc0, defaults, toset, flags,
 \*   nsig, nct, contracts, now, forks, ret0]
 InitVM(cfg) ==
-    LET tbl == SetTapeFlags(EmptyFn, cfg.defaults, cfg.flags) IN
+    LET tbl == SetTapeFlags(EmptyFn, cfg.defaults, cfg.toset, cfg.flags) IN
     [cfg |-> cfg,
      tapes |-> <<[code |-> cfg.scripts[1], pc |-> 0, cnt |-> 0, fid |-> 1, did |-> 1,
                   plug |-> TRUE, contr |-> TRUE]>>,
@@ -897,6 +911,7 @@ InitVM(cfg) ==
 
 BaseCfg == [scripts |-> <<<<>>>>, auth |-> FALSE, maxItems |-> 1024, maxItemSize |-> 1024,
             callLimit |-> 128, sc |-> <<>>, bc0 |-> [x \in {} |-> 0], defaults |-> StdDefaults,
+            toset |-> DOMAIN StdDefaults,
             flags |-> EmptyFn, nsig |-> 0, nct |-> 0, contracts |-> {}, now |-> <<>>,
             forks |-> [x \in {} |-> ""], ret0 |-> FALSE]
 
